@@ -228,3 +228,18 @@ claim("C16", category="exploration", engine="bytemc (vector harness) + arraymc",
            "vectors are recomputed by native/vpref.c so the golden files are anchored to the published algorithms.",
       note="golden files generated once from a scratch worktree of commit e695936 (see golden/README); both tiers run everything",
       design="3 C16")
+
+claim("C13", category="model_checking", engine="schedmc",
+      technique="stateless exhaustive exploration of thread interleavings of the real io.c under a cooperative scheduler (state-fingerprint pruning, unbounded for small rings), deviation-bounded exploration of the whole binary, plus free-running depth sweep and ThreadSanitizer pass",
+      text="Part 1: cmdline/io.c (compiled unchanged, included into the harness) with harness callbacks and a driver issuing the exact call sequence "
+           "of sync / scrub; every interleaving at synchronisation points and inside worker callbacks is executed (one forked run per schedule): "
+           "unbounded with pruning on a fingerprint of all ring state plus thread continuations for io_max 3 (1 reader, 1 writer, 3 stripes) over all "
+           "enabled / skip / early-stop / role / signal-outside variants and injected reader / writer errors (thorough: io_max 3-4, 1-2 readers and "
+           "writers, every enabled bitmap of 4 stripes, deeper rings preemption bounded); monitors: no buffer used by the caller while a worker "
+           "reads/writes it, every stripe exactly once and in order per worker, termination, writer error accounting. Part 2: the unmodified binary "
+           "under the same scheduler as LD_PRELOAD (scan, reader, writer, verify threads): every schedule with <=1 deviation from the default (<=2 on a "
+           "tiny scenario in thorough) must give the single-threaded outcome (exit, tags, parity bytes, content, trees). Part 3: every "
+           "--test-io-cache depth (8 values quick, all 3..128 thorough) x multi-scan on/off on 7 scenarios incl. two silent errors in one stripe. "
+           "Part 4: ThreadSanitizer build, free running.",
+      note="sequential consistency only; unsynchronised accesses are visible only to the TSan pass; two recorded findings (writer error lost, scan copy-source race)",
+      design="3 C13, 11.2")
